@@ -5,7 +5,7 @@
 // @module file=twofish/src/lib.rs
 // @config name=zeroize features=zeroize
 use super::*;
-use crate::__vp_cipher::{any_twofish, spec_h, spec_rs_mult, wf};
+use crate::__vp_cipher::{any_twofish, st_h_real, st_rs_real, uf_h, uf_rs, wf};
 use cipher::Array;
 include!("@VERIF@/contracts/_common/common.rs");
 include!("@VERIF@/contracts/serpent/shared_api.inc");
@@ -15,11 +15,12 @@ fn raw(t: &Twofish) -> [u8; core::mem::size_of::<Twofish>()] { unsafe { core::pt
 
 // ---------------------------------------------------------------- C11
 // key_schedule itself is real (its slicing and its unreachable!() arm are what could panic); its callees h and
-// rs_mult are replaced by their contracts (cipher.rs c_h, c_rs_mult).
+// rs_mult are uninterpreted functions (pure and panic-free under key_schedule's arguments by cipher.rs c_h, c_rs_mult;
+// the stub for h still performs h's reads of the key slice, so an out-of-range read would be caught).
 // @ob name=k_len props=C11,C20 kind=bounded bound="slice length <= 300" fn=twofish::Twofish::new_from_slice,twofish::Twofish::key_schedule uses=c_h,c_rs_mult timeout=600
 #[kani::proof]
-#[kani::stub(h, spec_h)]
-#[kani::stub(rs_mult, spec_rs_mult)]
+#[kani::stub(h, st_h_real)]
+#[kani::stub(rs_mult, st_rs_real)]
 #[kani::unwind(21)]
 fn k_len() {
     let buf: [u8; 301] = kani::any();
@@ -39,12 +40,14 @@ fn k_len() {
 // A fixed-size (32-byte) key and the same bytes as a slice give the same cipher
 // @ob name=k_slice_same props=C11 fn=twofish::Twofish::new,twofish::Twofish::new_from_slice uses=c_h,c_rs_mult timeout=600
 #[kani::proof]
-#[kani::stub(h, spec_h)]
-#[kani::stub(rs_mult, spec_rs_mult)]
+#[kani::stub(h, st_h_real)]
+#[kani::stub(rs_mult, st_rs_real)]
 #[kani::unwind(600)]
 fn k_slice_same() {
     let k: [u8; 32] = kani::any();
     let a = <Twofish as KeyInit>::new(&Array(k));
+    uf_h::replay_same_order();
+    uf_rs::replay_same_order();
     let b = <Twofish as KeyInit>::new_from_slice(&k[..]).unwrap();
     assert!(same_bytes!(Twofish, &a, &raw(&b)));
 }
@@ -52,14 +55,18 @@ fn k_slice_same() {
 // ---------------------------------------------------------------- C13
 // @ob name=w_weak props=C13 fn=twofish::Twofish::weak_key_test,twofish::Twofish::new_checked uses=c_h,c_rs_mult timeout=600
 #[kani::proof]
-#[kani::stub(h, spec_h)]
-#[kani::stub(rs_mult, spec_rs_mult)]
+#[kani::stub(h, st_h_real)]
+#[kani::stub(rs_mult, st_rs_real)]
 #[kani::unwind(600)]
 fn w_weak() {
     let k: [u8; 32] = kani::any();
     assert!(<Twofish as KeyInit>::weak_key_test(&Array(k)).is_ok());
     match <Twofish as KeyInit>::new_checked(&Array(k)) {
-        Ok(c) => assert!(same_bytes!(Twofish, &c, &raw(&<Twofish as KeyInit>::new(&Array(k))))),
+        Ok(c) => {
+            uf_h::replay_same_order();
+            uf_rs::replay_same_order();
+            assert!(same_bytes!(Twofish, &c, &raw(&<Twofish as KeyInit>::new(&Array(k)))))
+        }
         Err(_) => assert!(false),
     }
 }
@@ -73,8 +80,8 @@ clone_same!(k_clone, Twofish, any_twofish());
 names!(n_names, Twofish, any_twofish(), "Twofish");
 
 // ---------------------------------------------------------------- C16
-// @ob name=z_drop props=C16 cfg=zeroize fn=twofish::Twofish::drop timeout=300
-zero_on_drop!(z_drop, Twofish, any_twofish());
+// @ob name=z_drop_own props=C16 cfg=zeroize fn=twofish::Twofish::drop timeout=300
+zero_on_drop!(z_drop_own, Twofish, any_twofish());
 // @ob name=z_drop_clone props=C16 cfg=zeroize fn=twofish::Twofish::drop,twofish::Twofish::clone timeout=300
 zero_on_drop!(z_drop_clone, Twofish, any_twofish().clone());
 
